@@ -1,8 +1,9 @@
 """C43 - MJX reproduces the MuJoCo C engine.
 
 Domain : generated models restricted to the feature set MJX-JAX accepts (vf/gen_mjx.py; doc/mjx.rst table + io.py
-         gates) x batches of states/controls; integrators Euler/RK4/implicitfast, Newton (CG in a sub-family),
-         pyramidal/elliptic cones; plus a family with exactly one deliberately unsupported feature (gate).
+         gates) x batches of states/controls; integrators Euler/RK4/implicitfast, Newton solver, pyramidal/elliptic
+         cones; three feature-pinned templates (capsule-capsule + elliptic/impratio, tendons, RK4 + stateful
+         actuators); plus a family with exactly one deliberately unsupported feature (gate).
 Oracle : differential. The same XML and state go through (a) the tree's MJX (jit+vmap, float64 CPU), (b) the tree's
          C engine (ctypes).  MJX needs mujoco.MjModel of the installed wheel: guard = every model array MJX consumes
          must equal the tree-compiled one, else the case is dropped as 'version-skew'.
@@ -651,7 +652,10 @@ pipeline stage output (kinematics, inertia, forces, tendons/actuation, contacts 
 matched by content, qacc_smooth, solver output, sensors, next state) is compared with the tree's C engine. Unsupported
 features must be rejected with NotImplementedError.'''
 LEVEL_NOTE = '''MJX is fed mujoco.MjModel objects of the installed 3.13.0 wheel (the only way to construct mjx.Model); a
-guard drops cases where the wheel-compiled arrays differ from the tree-compiled ones. Mesh/hfield collisions are not
-covered (trimesh unavailable). Box/ellipsoid/cylinder narrow-phase is documented to differ from the C engine, so for
-those pairs only agreement of matched contacts is used and mismatching states are compared on smooth quantities only.
-CG solver and sparse mass matrix are sampled less densely than Newton/dense. Sampled, not exhaustive.'''
+guard drops cases where the wheel-compiled arrays differ from the tree-compiled ones (never observed to trigger). Mesh/hfield
+collisions are not covered (trimesh unavailable). Box/ellipsoid/cylinder narrow-phase is documented to differ from the C engine, so for
+those pairs only agreement of matched contacts is used and mismatching states are compared on smooth quantities only; states with a
+capsule-capsule contact are compared downstream with a loose 5e-3 tolerance. Only the Newton solver and dense mass matrix / Jacobian
+are exercised (CG, jacobian=sparse not covered). Sub-domains in which this tree's MJX was found to deviate from this tree's C engine
+are excluded and listed in `assumptions` (reproducers: python -m vf.mjx_findings); C43_FINDINGS=1 re-enables them. No shrinking (each
+model costs a jit compilation of 10-100 s); the run is time-budgeted and sharded over worker processes. Sampled, not exhaustive.'''
